@@ -64,9 +64,9 @@ Proof. vm_compute. split; reflexivity. Qed.
 (* the fast encoder under fixed values (Greedy.fast_decode): the accepted vector keeps the fixed entries (in_space) and its
    instance passes the check respects_fixed -- a fixed choice that the vector could not be applied to was not given another
    option while its originating node is in the instance *)
-Theorem C15_fast_decode_respects_fixed : forall g vars x fixed imp inst,
+Theorem C15_fast_decode_respects_fixed : forall g ovars vars x fixed imp inst,
   requested_ok (nvars_of vars x fixed) ->
-  fast_decode true g vars x fixed = Some (Some (imp, inst)) ->
+  fast_decode true g ovars vars x fixed = Some (Some (imp, inst)) ->
   exists y taken, in_space (nvars_of vars x fixed) y /\ respects_fixed g vars y fixed taken inst = true /\
                   imp = map (fun v => zlookup taken (fst v)) vars.
 Proof. exact fast_decode_respects. Qed.
@@ -76,7 +76,7 @@ Print Assumptions C15_fast_decode_respects_fixed.
    node 3, which is incompatible with 5 -- the instance has 6 and the choice is reported inactive; with the check the
    neighbour (10 -> 2, 11 -> 5) is returned *)
 Theorem C15_fixed_value_ignored_refuted :
-  fast_decode false g_f20 vars_f20 [1; 0]%Z [false; true] = Some (Some ([1; -1]%Z, [0; 1; 4; 3; 6]%N)) /\
-  fast_decode true g_f20 vars_f20 [1; 0]%Z [false; true] = Some (Some ([0; 0]%Z, [0; 1; 4; 2; 5]%N)).
+  fast_decode false g_f20 vars_f20 vars_f20 [1; 0]%Z [false; true] = Some (Some ([1; -1]%Z, [0; 1; 4; 3; 6]%N)) /\
+  fast_decode true g_f20 vars_f20 vars_f20 [1; 0]%Z [false; true] = Some (Some ([0; 0]%Z, [0; 1; 4; 2; 5]%N)).
 Proof. exact fixed_value_ignored_refuted. Qed.
 Print Assumptions C15_fixed_value_ignored_refuted.
